@@ -278,9 +278,15 @@ def concrete_suite(ctx):
         [(3, 3), (3, 3.5)],                                    # entirely inside one cell
     ]
     datasets.append((dm, 'temp', linesm))
+    # the same grid with its latitude axis stored from north to south
+    ds1d = builders.cf1d(3, 4, lat=lat[::-1].copy(), lon=lon, data_vars={'temp': (('k', 'y', 'x'), data[:, ::-1, :].copy())})
+    ds1d = ds1d.assign_coords(zc=(('k',), numpy.array([1.0, 3.0]), {'positive': 'down', 'long_name': 'depth', 'units': 'm'}))
+    datasets.append((ds1d, 'temp', lines1[:4] + lines1[7:]))
     deferred = []      # reported after everything else has been checked
+    from harness import geomref as _geomref
     for ds, var, lines in datasets:
         cv = ds.ems
+        _geomref.check(ctx, ds, cv)
         polys = cv.polygons
         for coords in lines:
             line = shapely.LineString(coords)
@@ -324,6 +330,14 @@ def concrete_suite(ctx):
                 ctx.check(ok, "prepared data holds, for each segment, the values of that segment's cell at every depth")
             else:
                 ctx.check(len(td['linear_index']) == 0, 'a path that misses the model gives an empty transect')
+    # a path whose vertices carry heights (a LineString with z values): the transect is about where the path runs on the map
+    flat_line = shapely.LineString(lines1[1])
+    high_line = shapely.LineString([(x, y, z) for (x, y), z in zip(lines1[1], (0.0, 5000.0, -300.0))])
+    sa, sb = T.Transect(ds1, flat_line, depth='zc').segments, T.Transect(ds1, high_line, depth='zc').segments
+    ctx.check([int(s.linear_index) for s in sa] == [int(s.linear_index) for s in sb]
+              and all(abs(a.start_distance - b.start_distance) <= 1e-6 * max(1.0, abs(a.start_distance)) and
+                      abs(a.end_distance - b.end_distance) <= 1e-6 * max(1.0, abs(a.end_distance)) for a, b in zip(sa, sb)),
+              'a path with z values gives the segments of the same path without them')
     # a transect along a depth coordinate that is not the dataset's default one
     wdata = numpy.arange(3 * 3 * 4, dtype=float).reshape(3, 3, 4) + 500
     ds2 = ds1.assign(w=(('kw', 'y', 'x'), wdata)).assign_coords(
